@@ -95,9 +95,44 @@ type vfpWorld struct {
 	static      *vfpStatic
 	pubs        map[string]*vfpClient
 	readers     map[string]*vfpClient
+	// gate: when armed, the first hook command the path launches waits here (the hook observer runs
+	// in the path goroutine, in the caller's order), so that the harness can act while the path
+	// loop is held in the middle of the request it is serving
+	gate atomic.Pointer[vfpGate]
+}
+
+type vfpGate struct {
+	reached chan struct{}
+	release chan struct{}
+	once    sync.Once
 }
 
 var vfpCurrent atomic.Pointer[vfpWorld]
+
+// probeWrite: the publisher writes one unit through the handle it holds; waits for the readers' logs to settle
+func (w *vfpWorld) probeWrite(c *vfpClient) {
+	if c.sub == nil {
+		return
+	}
+	medi := c.desc.Medias[0]
+	c.sub.WriteUnit(medi, medi.Formats[0], &unit.Unit{
+		PTS:     0,
+		NTP:     time.Now(),
+		Payload: unit.PayloadH264{{0x05, 0xEE, c.id[1] - '0'}},
+	})
+	last, stable := -1, 0
+	for i := 0; i < 60 && stable < 4; i++ {
+		time.Sleep(2 * time.Millisecond)
+		w.mu.Lock()
+		n := len(w.ev)
+		w.mu.Unlock()
+		if n == last {
+			stable++
+		} else {
+			stable, last = 0, n
+		}
+	}
+}
 
 func (w *vfpWorld) log(e vfpEvent) {
 	w.mu.Lock()
@@ -296,6 +331,10 @@ func vfpNewWorld(t testing.TB, p vfpProfile) *vfpWorld {
 func vfpInstallHooks() {
 	externalcmd.VerifOnStart = func(c *externalcmd.Cmd) bool {
 		if w := vfpCurrent.Load(); w != nil {
+			if g := w.gate.Load(); g != nil {
+				g.once.Do(func() { close(g.reached) })
+				<-g.release
+			}
 			w.log(vfpEvent{T: "cmd", C: c.Cmdstr, V: "start"})
 		}
 		return true
@@ -542,7 +581,39 @@ func (w *vfpWorld) step(in vfpIn) vfpStep {
 	case "RemovePublisher":
 		c := w.client(w.pubs, in.C)
 		if c.path != nil {
-			c.path.RemovePublisher(defs.PathRemovePublisherReq{Author: c})
+			// "replaced/removed publishers are cut off": once RemovePublisher has RETURNED nothing the
+			// publisher writes may reach a reader. The path loop is held at the first hook command it
+			// launches while serving the request; if the call returns before that point is reached
+			// (or no hook is launched at all) the publisher tries a write at once.
+			g := &vfpGate{reached: make(chan struct{}), release: make(chan struct{})}
+			w.gate.Store(g)
+			ret := make(chan struct{})
+			pa := c.path
+			go func() {
+				pa.RemovePublisher(defs.PathRemovePublisherReq{Author: c})
+				close(ret)
+			}()
+			returned := false
+			select {
+			case <-ret:
+				returned = true
+			case <-g.reached:
+				// the path loop is held inside the request: has the call returned to the publisher all the
+				// same? (the caller's goroutine may need a moment to run)
+				select {
+				case <-ret:
+					returned = true
+				case <-time.After(20 * time.Millisecond):
+				}
+			case <-time.After(10 * time.Second):
+			}
+			if returned {
+				w.log(vfpEvent{T: "returned", C: in.C})
+				w.probeWrite(c)
+			}
+			w.gate.Store(nil)
+			close(g.release)
+			<-ret
 		}
 
 	case "RemoveReader":
